@@ -1,4 +1,5 @@
 CONSTANTS
+  Spellings = {"merged", "split", "split_rev", "apart"}
   Idents = {"UserId", "A", "Foo", "FooBar", "Foo2Bar", "HTTPServer", "IOError", "ID", "URL", "HTTP2", "Init", "Default", "None", "Class", "In", "Self_"}
   Renames = {"none", "x", "foo-bar", "Other_Name", "init", "default"}
   Kinds = {"unit", "newtype", "struct"}
